@@ -2631,6 +2631,8 @@ func (s *Server) serveConnCounted(c net.Conn, countConcurrency bool) error {
 		// store req.ConnectionClose so even if it was changed inside of handler.
 		// Preserve connectionClose if already set (e.g., by ExpectHandler).
 		connectionClose = connectionClose || s.DisableKeepalive || ctx.Request.Header.ConnectionClose()
+		// Likewise remember a HEAD request: after a timeout ctx is replaced by a fresh one without the request.
+		isHead := ctx.IsHead()
 
 		if serverName != "" {
 			ctx.Response.Header.SetServer(serverName)
@@ -2660,7 +2662,7 @@ func (s *Server) serveConnCounted(c net.Conn, countConcurrency bool) error {
 			timeoutResponse.CopyTo(&ctx.Response)
 		}
 
-		if ctx.IsHead() {
+		if ctx.IsHead() || (timeoutResponse != nil && isHead) {
 			ctx.Response.SkipBody = true
 		}
 
